@@ -11,6 +11,7 @@ from __future__ import annotations
 import asyncio
 import math
 import random
+import threading
 import selectors as _real_selectors
 import socket
 from typing import Any
@@ -30,7 +31,7 @@ PROPERTY = "C11"
 LEVEL = "exploration"
 RULE = (
     "case = (operation kind, arrival schedule of the packet's bytes in virtual time incl. spurious readiness and already-present data, "
-    "timeout in {0, finite, None}, retry_interval in {0.1, 1, inf}, lock hold time); kinds: transport recv / recv_into, endpoint "
+    "timeout in {0, finite, None, math.inf}, retry_interval in {0.1, 1, inf}, lock hold time); kinds: transport recv / recv_into, endpoint "
     "recv_packet (both paths), TCP/UDP client recv_packet with lock contention, iter_received_packets, send_packet against a slow "
     "peer, TLS blocking transport, AsyncClientRecvIterator on the virtual loop. non-trivial = at least 2 partial arrivals or a "
     "lock wait, and a finite timeout; distinct = distinct (kind, schedule, timeout, retry_interval, lock hold)"
@@ -106,6 +107,10 @@ def vselect_block_forever() -> BaseException:
     return BlockForever("select() with no timeout and nothing will ever arrive")
 
 
+def _j(T):
+    return "inf" if T == math.inf else T
+
+
 class VirtualLock:
     def __init__(self, clock, held_until: float | None) -> None:
         self.clock = clock
@@ -116,6 +121,8 @@ class VirtualLock:
     def acquire(self, blocking: bool = True, timeout: float = -1) -> bool:
         if self.owned:
             raise RuntimeError("harness lock re-acquired")
+        # argument checks of the real thing (ValueError / OverflowError for what threading.Lock refuses, e.g. an infinite timeout)
+        threading.Lock().acquire(blocking, timeout)
         if self.held_until is None or self.held_until <= self.clock.now:
             self.owned = True
             return True
@@ -322,7 +329,7 @@ def _finish(ctx, kind, why, T, retry, arrivals, lock_wait, buffered, outcome, el
         ctx.violation(
             f"{cat}:{kind}",
             f"[{kind}] T={T} retry={retry} lock={lock_wait} arrivals={[(t, None if d is None else len(d)) for t, d in arrivals]} -> {outcome} after {elapsed}: {why}",
-            {"kind": kind, "T": T, "retry": "inf" if retry == math.inf else retry, "arrivals": [[t, None if d is None else d.hex()] for t, d in arrivals], "lock": lock_wait, "buffered": buffered, "tag": tag},
+            {"kind": kind, "T": _j(T), "retry": "inf" if retry == math.inf else retry, "arrivals": [[t, None if d is None else d.hex()] for t, d in arrivals], "lock": lock_wait, "buffered": buffered, "tag": tag},
         )
 
 
@@ -356,7 +363,7 @@ def scenario_iter(ctx, rng: random.Random, T: float | None, retry: float, tag) -
             base_selector.selectors = _SelectorsShim(world)  # type: ignore[assignment]
             try:
                 client = TCPNetworkClient(c, StreamProtocol(StringLineSerializer()), retry_interval=retry, max_recv_size=rng.choice([1, 1024]))
-                Tn = T if T is not None else 30.0  # an unbounded iterator would block for ever once the script is over
+                Tn = T if T is not None and T != math.inf else 30.0  # an unbounded iterator would block for ever once the script is over
                 with cpu_guard(20):
                     for v in client.iter_received_packets(timeout=Tn):
                         got.append(v)
@@ -554,7 +561,7 @@ def scenario_send(ctx, rng: random.Random, T: float | None, retry: float, tag) -
     ctx.case(T is not None and len(blocks) >= 2, "endpoint-send", T, retry, tuple(blocks))
     if why:
         cat = "budget-exceeded" if "exceeds" in why else "zero-timeout-waits" if "zero timeout" in why else "false-timeout" if "TimeoutError although" in why else "late-return" if "returned although" in why else "other"
-        ctx.violation(f"{cat}:endpoint-send", f"[endpoint-send] T={T} retry={retry} blocks={blocks} -> {outcome} after {elapsed}: {why}", {"kind": "endpoint-send", "T": T, "retry": "inf" if retry == math.inf else retry, "blocks": blocks, "tag": tag})
+        ctx.violation(f"{cat}:endpoint-send", f"[endpoint-send] T={T} retry={retry} blocks={blocks} -> {outcome} after {elapsed}: {why}", {"kind": "endpoint-send", "T": _j(T), "retry": "inf" if retry == math.inf else retry, "blocks": blocks, "tag": tag})
 
 
 def scenario_client_send_lock(ctx, rng: random.Random, T: float | None, retry: float, tag) -> None:
@@ -625,7 +632,7 @@ def scenario_client_send_lock(ctx, rng: random.Random, T: float | None, retry: f
     ctx.case(T is not None, "client-send-lock", T, retry, held, tuple(blocks))
     if why:
         cat = "budget-exceeded" if "exceeds" in why else "zero-timeout-waits" if "zero timeout" in why else "false-timeout" if "TimeoutError although" in why else "late-return" if "returned although" in why else "other"
-        ctx.violation(f"{cat}:client-send-lock", f"[client-send-lock] T={T} retry={retry} lock held {held} blocks={blocks} -> {outcome} after {elapsed}: {why}", {"kind": "client-send-lock", "T": T, "retry": "inf" if retry == math.inf else retry, "held": held, "blocks": blocks, "tag": tag})
+        ctx.violation(f"{cat}:client-send-lock", f"[client-send-lock] T={T} retry={retry} lock held {held} blocks={blocks} -> {outcome} after {elapsed}: {why}", {"kind": "client-send-lock", "T": _j(T), "retry": "inf" if retry == math.inf else retry, "held": held, "blocks": blocks, "tag": tag})
 
 
 def scenario_async_iter(ctx, rng: random.Random, T: float | None, tag) -> None:
@@ -648,7 +655,7 @@ def scenario_async_iter(ctx, rng: random.Random, T: float | None, tag) -> None:
         script.append((d2, p[2:]))
         t += d1 + d2
         completes.append(t)
-    Tn = 30.0 if T is None else T
+    Tn = 30.0 if T is None or T == math.inf else T
     got: list = []
     info: dict = {}
 
@@ -704,10 +711,10 @@ def scenario_async_iter(ctx, rng: random.Random, T: float | None, tag) -> None:
             why = f"iterator yielded {len(got)} packets although only {len(may)} complete within the budget {Tn}"
     ctx.case(True, "async-iter", Tn, tuple(script))
     if why:
-        ctx.violation("async-iter", f"[async-iter] T={Tn} script={script}: {why}", {"kind": "async-iter", "T": Tn, "script": [[d, b.hex()] for d, b in script], "tag": tag})
+        ctx.violation("async-iter", f"[async-iter] T={Tn} script={script}: {why}", {"kind": "async-iter", "T": _j(Tn), "script": [[d, b.hex()] for d, b in script], "tag": tag})
 
 
-TS = [None, 0, 0.25, 0.5, 1.0, 2.0, 5.0]
+TS = [None, 0, 0.25, 0.5, 1.0, 2.0, 5.0, math.inf]
 RETRIES = [0.1, 1.0, math.inf]
 
 
@@ -736,7 +743,7 @@ def run_shard(params: dict, ctx) -> None:
         if it % 4 == 0:
             scenario_async_iter(ctx, rng, T, tag)
         if it == 0:
-            ctx.sample({"kind": "endpoint-recv", "T": T, "retry_interval": str(retry), "arrivals": "e.g. [(0.0, b'hel'), (0.25, None), (0.5, b'lo world...'), ...]"})
+            ctx.sample({"kind": "endpoint-recv", "T": _j(T), "retry_interval": str(retry), "arrivals": "e.g. [(0.0, b'hel'), (0.25, None), (0.5, b'lo world...'), ...]"})
 
 
 def replay(witness: dict, ctx) -> None:
